@@ -74,6 +74,32 @@ func checkLateWrites(c caseT, count uint32) {
 	}
 }
 
+// checkReload: resume metadata left by a run with another chunk size must not decide the
+// geometry of this one - what the receiver loads has to agree with sender and receiver on the
+// number of chunks (and carry no completed chunk of the other tiling).
+func checkReload(c caseT, count uint32) {
+	if c.Size == 0 {
+		return
+	}
+	for _, other := range []uint32{c.Chunk + 1, c.Chunk - 1, c.Chunk * 2, c.Chunk / 2, 1} {
+		if other == 0 || other == c.Chunk {
+			continue
+		}
+		path := filepath.Join(scratch, "reload.sbxmap")
+		os.Remove(path)
+		total, chunk, set, err := transfer.VerifReloadSidecar(path, "0123456789abcdef", c.Size, other, c.Chunk)
+		if err != nil {
+			violate("LoadOrCreateSidecarWithFallback", "error", c, fmt.Sprintf("size %d: metadata of chunk size %d reloaded for chunk size %d: %v", c.Size, other, c.Chunk, err))
+			continue
+		}
+		if total != count || chunk != c.Chunk {
+			violate("LoadOrCreateSidecarWithFallback", "count", c, fmt.Sprintf("size %d: metadata written with chunk size %d is reused for chunk size %d: it says %d chunks of %d bytes, sender and receiver use %d chunks of %d", c.Size, other, c.Chunk, total, chunk, count, c.Chunk))
+		} else if set != 0 {
+			violate("LoadOrCreateSidecarWithFallback", "foreign-bits", c, fmt.Sprintf("size %d: metadata written with chunk size %d is reused for chunk size %d with %d chunks marked complete", c.Size, other, c.Chunk, set))
+		}
+	}
+}
+
 func checkPair(c caseT, indices []uint32, allIndices bool, withSidecar bool) {
 	res.Eval()
 	want64, fits := refCount(c.Size, c.Chunk)
@@ -86,6 +112,7 @@ func checkPair(c caseT, indices []uint32, allIndices bool, withSidecar bool) {
 	}
 	if allIndices && c.Size <= 48 && c.Chunk <= 12 {
 		checkLateWrites(c, want)
+		checkReload(c, want)
 	}
 	got := transfer.VerifChunkTotal(c.Size, c.Chunk)
 	if got != want {
